@@ -13,7 +13,11 @@ CONSTANTS MaxLeaves, MaxDepth
 
 HInt(n) == [t |-> "int", sign |-> 0, digs |-> <<n>>]
 HostFn(n) == [t |-> "hostfn", name |-> n]
-Heap0 == << [t |-> "list", items |-> <<HInt(0), HInt(1)>>] >>
+Heap0 == << [t |-> "list", items |-> <<HInt(0), HInt(1)>>],
+            [t |-> "list", items |-> <<[t |-> "list", addr |-> 3], [t |-> "list", addr |-> 4]>>],
+            [t |-> "list", items |-> <<HInt(1), HInt(0)>>],
+            [t |-> "list", items |-> <<HInt(0), HInt(1)>>] >>
+NestedList == [t |-> "list", addr |-> 2]
 HostList == [t |-> "list", addr |-> 1]
 ProbeNames == <<"t1", "t2", "t3", "t4", "t5">>
 
@@ -37,6 +41,10 @@ Grow(S) ==
            \cup {NSetOp(a, b, <<43, 61>>, c) : a \in {Leaf}, b \in {Leaf}, c \in S}
            \cup {NDel(a, b) : a \in S, b \in S}
            \cup {NCall("push", <<a, b>>) : a \in S, b \in S}
+           \* compound assignment whose target / key is itself a subscript of a host container by a probe
+           \cup {NSetOp(NIndex(NName("nn"), a), b, <<43, 61>>, c) : a \in {Leaf}, b \in {Leaf, NVal(VNum(0))}, c \in {Leaf}}
+           \cup {NSetOp(NName("hl"), NIndex(NName("hl"), a), <<45, 61>>, c) : a \in {Leaf}, c \in {Leaf}}
+           \cup {NSetItem(NIndex(NName("nn"), a), NIndex(NName("hl"), b), c) : a \in {Leaf}, b \in {Leaf}, c \in {Leaf}}
 Shapes0 == {Leaf}
 Shapes1 == Grow(Shapes0)
 \* depth 2 is built only from the depth-1 shapes that can still fit the leaf bound
@@ -73,7 +81,8 @@ ProbeBeh(o) == [h |-> "probe", ret |-> CASE o = "one" -> HInt(1) [] o = "zero" -
 C09Calls(s) == <<[tree |-> ShapeTree[s.si], nid |-> "n1", max |-> 100, ast |-> <<>>]>>
 C09Host(s) == [n \in {ProbeNames[i] : i \in 1..ShapeLeaves[s.si]} |->
                  ProbeBeh(s.o[CHOOSE i \in 1..ShapeLeaves[s.si] : ProbeNames[i] = n])]
-C09Names0(s) == [n1 |-> [n \in {ProbeNames[i] : i \in 1..ShapeLeaves[s.si]} |-> HostFn(n)]]
+C09Names0(s) == [n1 |-> [n \in {ProbeNames[i] : i \in 1..ShapeLeaves[s.si]} \cup {"nn", "hl"} |->
+                            IF n = "nn" THEN NestedList ELSE IF n = "hl" THEN HostList ELSE HostFn(n)]]
 C09Heap0(s) == Heap0
 C09Bound(s) == Cap
 
